@@ -121,12 +121,12 @@ func (ctx *Context) applyAtRecursively(pos int) int {
 
 		lookupIndex := ctx.stack[k].Actions[0].LookupListIndex
 		seqIdx := ctx.stack[k].Actions[0].SequenceIndex
+		ctx.stack[k].Actions = ctx.stack[k].Actions[1:]
 		if int(seqIdx) >= len(ctx.stack[k].InputPos) {
 			continue
 		}
 		pos := ctx.stack[k].InputPos[seqIdx]
 		end := ctx.stack[k].EndPos
-		ctx.stack[k].Actions = ctx.stack[k].Actions[1:]
 
 		if int(lookupIndex) >= len(ctx.ll) {
 			continue
@@ -144,6 +144,13 @@ func (ctx *Context) applyAtRecursively(pos int) int {
 			ctx.lookup = oldLookup
 			ctx.keep = oldKeep
 		}
+	}
+
+	if len(ctx.stack) > 0 {
+		// The action budget is exhausted.  Drop the remaining actions, so
+		// that they are not applied at a later position or in a later call.
+		next = ctx.stack[0].EndPos
+		ctx.stack = ctx.stack[:0]
 	}
 
 	return next
